@@ -858,6 +858,10 @@ class Interp:
                 tlo_, thi_ = TYPE_RANGE[to]
                 if flo < tlo_ or fhi > thi_:      # narrowing (or sign-changing) cast
                     ok = lo >= tlo_ and hi <= thi_
+                    d_ = self._cast_desc(s, o)
+                    for rx_, blo, bhi in getattr(self, "cast_bounds", ()):
+                        if re.search(rx_, d_):        # a declared value range for what is being written (e.g. segment type 1..=4)
+                            ok = lo >= blo and hi <= bhi
                     ob = Obligation(self.fv.name, b, "cast:%s->%s" % (frm, to), self._cast_desc(s, o), s.get("ln", 0), "")
                     ob.status = "discharged" if ok else "open"
                     ob.by = "value in [%s, %s]" % (_fmt(lo), _fmt(hi))
@@ -1550,8 +1554,9 @@ def _fmt(x):
 
 
 # ---------------------------------------------------------------------------------------------- driver
-def analyse(prog, key, profile="debug", track_casts=False, field_bounds=None, type_invariants=None):
+def analyse(prog, key, profile="debug", track_casts=False, field_bounds=None, type_invariants=None, cast_bounds=None):
     it = Interp(prog, key, profile)
+    it.cast_bounds = cast_bounds or ()
     it.track_casts = track_casts
     it.field_bounds = field_bounds or {}
     it.type_invariants = type_invariants or {}
@@ -1639,7 +1644,7 @@ def _norm_site(site):
     return re.sub(r"[\s()]", "", site)
 
 
-def check_panic_freedom(prog, rule, roots, prop, scope_crates=("rustybgp_packet",), profile="debug", extra_skip=None, casts_in=None, cast_rule=None, cast_filter=None, field_bounds=None):
+def check_panic_freedom(prog, rule, roots, prop, scope_crates=("rustybgp_packet",), profile="debug", extra_skip=None, casts_in=None, cast_rule=None, cast_filter=None, field_bounds=None, cast_bounds=None):
     """Run the interpreter over every local function reachable from `roots` and turn open obligations into
     rule violations unless listed (with still-valid reasons) in specs/reviewed_sites.json."""
     import json
@@ -1689,7 +1694,7 @@ def check_panic_freedom(prog, rule, roots, prop, scope_crates=("rustybgp_packet"
             want_casts = bool(casts_in and casts_in(k))
             it = cache.get((k, profile, "final", want_casts))
             if it is None:
-                it = analyse(prog, k, profile, track_casts=want_casts, field_bounds=field_bounds if want_casts else None)
+                it = analyse(prog, k, profile, track_casts=want_casts, field_bounds=field_bounds if want_casts else None, cast_bounds=cast_bounds if want_casts else None)
                 cache[(k, profile, "final", want_casts)] = it
                 if not want_casts:
                     cache[(k, profile, "final")] = it
